@@ -8,6 +8,8 @@ import (
 	"math/rand"
 	"reflect"
 	"strings"
+	"sync"
+	"sync/atomic"
 	"unicode/utf8"
 
 	"github.com/uhn/ggql/pkg/ggql"
@@ -401,6 +403,56 @@ func runC18(c *run.Ctx) {
 				c.Count("json_ggql_parses", 1)
 			}
 		}
+	}
+	// the writers are functions of their arguments only: called from several goroutines at once, each on a value and a
+	// buffer of its own, every goroutine still reads back exactly what it wrote
+	ggql.Sort = true
+	const writers = 8
+	per := c.N(1500, 20000)
+	var mu sync.Mutex
+	var bad []rec
+	var wg sync.WaitGroup
+	var done int64
+	for g := 0; g < writers; g++ {
+		wg.Add(1)
+		go func(g int) {
+			defer wg.Done()
+			for k := 0; k < per; k++ {
+				r := c.Rand(5000000 + g*1000000 + k)
+				v := c18Value(r, 1+r.Intn(3), map[string]bool{})
+				if k%2 == 0 {
+					v = []interface{}{c18String(r) + "é日😀", v}
+				}
+				var sb, jb bytes.Buffer
+				var back interface{}
+				var e1, e2, e3 error
+				pv, _ := run.Protect(func() {
+					e1 = ggql.WriteSDLValue(&sb, v, k%3-1)
+					e2 = ggql.WriteJSONValue(&jb, v, k%3-1)
+					back, e3 = ggql.ParseValueString(sb.String())
+				})
+				var std interface{}
+				dec := json.NewDecoder(bytes.NewReader(jb.Bytes()))
+				dec.UseNumber()
+				e4 := dec.Decode(&std)
+				ok := pv == nil && e1 == nil && e2 == nil && e3 == nil && e4 == nil && reflect.DeepEqual(normEmpty(back), normEmpty(v)) &&
+					reflect.DeepEqual(normEmpty(c18FromStd(std)), normEmpty(c18JSONView(v)))
+				atomic.AddInt64(&done, 1)
+				if !ok {
+					mu.Lock()
+					if len(bad) < 5 {
+						bad = append(bad, rec{Value: fmt.Sprintf("%#v", v), Indent: k%3 - 1, Sort: true, Text: sb.String() + "  |JSON| " + jb.String(), Mode: "concurrent-writers", Got: fmt.Sprintf("%#v", back), Err: fmt.Sprint(pv, e1, e2, e3, e4)})
+					}
+					mu.Unlock()
+					return
+				}
+			}
+		}(g)
+	}
+	wg.Wait()
+	c.Count("round_trips_with_8_goroutines_writing_at_once", int(done))
+	for _, b := range bad {
+		c.Violation("c18-concurrent-writers", b)
 	}
 }
 
